@@ -841,4 +841,47 @@ theorem from_records_source (service : Name) (records : List RR) :
     | done
     | (funext i r; exact (hc i r).symm)
 
+/-! ### 20. the records an instance is advertised with (simple-mdns) -/
+
+def classNamed (s : String) : CLASS :=
+  if s = "IN" then .IN else if s = "CH" then .CH else if s = "HS" then .HS else if s = "CS" then .CS else .NONE
+
+def addrCode (s : String) : Nat := if s = "A" then 1 else if s = "AAAA" then 28 else 0
+
+/-- `InstanceInformation::into_records` by the order of its groups and by what the constructors of
+`conversion_utils.rs` put into the records -/
+def intoRecordsWith (order v4 v6 : List String) (srv : String × Nat × Nat) (txtClass : String)
+    (full : Name) (ips : List (Bool × Nat)) (ports : List Nat) (attrs : Attrs) (ttl : Nat) : Out (List RR) :=
+  match Txt.ofMap attrs with
+  | .ok ss =>
+    let mk (c : String) (rd : RData) : RR := { name := full, cls := classNamed c, ttl := ttl, rdata := rd, flush := false }
+    let group (g : String) : List RR :=
+      if g = "addresses" then ips.map (fun ip =>
+        if ip.1 then mk (v6.getD 1 "") (.flat (addrCode (v6.getD 0 "")) [.int ip.2])
+        else mk (v4.getD 1 "") (.flat (addrCode (v4.getD 0 "")) [.int ip.2]))
+      else if g = "ports" then ports.map (fun p => mk srv.1 (.flat 33 [.int srv.2.1, .int srv.2.2, .int p, .name full]))
+      else if g = "attributes" then [mk txtClass (.flat 16 [.strs ss])]
+      else []
+    .ok (order.flatMap group)
+  | .err => .err
+  | .panic => .panic
+
+/-- **an instance is advertised with the records the model builds**: address records (A for IPv4,
+AAAA for IPv6), then one SRV record per port with priority 0, weight 0 and the instance's own name
+as target, then one TXT record; all of class IN, owned by the instance's full name (another order,
+another class, `weight: 1`: other values, and this fails) -/
+theorem into_records_source (full : Name) (ips : List (Bool × Nat)) (ports : List Nat) (attrs : Attrs) (ttl : Nat) :
+    Mdns.intoRecords full ips ports attrs ttl =
+      intoRecordsWith (Gen.Env.intoRecordsOrder.getD ["addresses", "ports", "attributes"])
+        (Gen.Env.intoRecordsV4.getD ["A", "IN"]) (Gen.Env.intoRecordsV6.getD ["AAAA", "IN"])
+        (Gen.Env.intoRecordsSrv.getD ("IN", 0, 0)) (Gen.Env.intoRecordsTxtClass.getD "IN") full ips ports attrs ttl := by
+  have h1 : Gen.Env.intoRecordsOrder.getD ["addresses", "ports", "attributes"] = ["addresses", "ports", "attributes"] := by decide
+  have h2 : Gen.Env.intoRecordsV4.getD ["A", "IN"] = ["A", "IN"] := by decide
+  have h3 : Gen.Env.intoRecordsV6.getD ["AAAA", "IN"] = ["AAAA", "IN"] := by decide
+  have h4 : Gen.Env.intoRecordsSrv.getD ("IN", 0, 0) = ("IN", 0, 0) := by decide
+  have h5 : Gen.Env.intoRecordsTxtClass.getD "IN" = "IN" := by decide
+  rw [h1, h2, h3, h4, h5]
+  unfold Mdns.intoRecords intoRecordsWith
+  cases Txt.ofMap attrs <;> simp [bind, pure, Out.bind, classNamed, addrCode]
+
 end Dns.TieEnv
